@@ -233,3 +233,27 @@ func VarDecl(a uint8) uint16 {
 	x--
 	return x
 }
+
+// conversions between strings and runes, element assignment on a fresh local slice
+func RuneBump(s string, inc int) string {
+	rr := []rune(s)
+	if len(rr) == 0 {
+		return "-"
+	}
+	rr[0] += rune(inc)
+	rr[len(rr)-1] = rr[len(rr)-1] ^ 1
+	return string(rr)
+}
+
+func RuneCount(s string) int { return len([]rune(s)) }
+
+// switch on a string
+func StrSwitch(s string) int {
+	switch s {
+	case "a", "bc":
+		return 1
+	case "":
+		return 2
+	}
+	return 0
+}
